@@ -1436,6 +1436,10 @@ def render(src: str, mod=None) -> tuple[str, dict]:
         except RecursionError:
             info["unsupported"][e] = "recursion"
             tr.done[m] = {"error": "recursion", "own": True}
+        except Exception as ex:   # noqa  (a bug of the translator on an unforeseen AST shape: fail closed for this entry)
+            info["unsupported"][e] = f"translator error: {ex!r}"[:200]
+            tr.done[m] = {"error": info["unsupported"][e], "own": True}
+            del tr.stack[:]
     order, seen = [], set()
 
     def visit(m):
